@@ -682,7 +682,7 @@ def probe_float_splice(ctx, binp):
 
 def run_driver(ctx, binp, cases, tag):
     send = [{k: v for k, v in c.items() if k not in ("tree", "ast", "stream", "noncanon", "name")} for c in cases]
-    rc, res, raw = vlib.run_json(binp, {"cases": send, "timeout_ms": 10000}, timeout=3000)
+    rc, res, raw, _loud = vlib.run_json_verbose_share(ctx, binp, {"cases": send, "timeout_ms": 10000}, timeout=3000)
     if res is None:
         raise vlib.GoBuildError("./cmd/c16 (run %s)" % tag, raw[-3000:])
     return {o["id"]: o for o in res["outs"]}
